@@ -1,122 +1,118 @@
 """C03 — request paths are normalised once; unsafe paths never reach a handler."""
-from .lib import (PLUMBING, callee_allow, callers, closure_args_of_call, const_int, lit_strs, root_fn,
-                  status_const_of_ctor, try_edges, operand_local)
-from .engine import comparison_of
+from .lib import (ITER_PLUMBING, PLUMBING, callee_allow, callers, closure_args_of_call, const_int, element_sources, http_error_ctors_on_error_path,
+                  lit_strs, operand_local, result_split, status_const_of_ctor)
 
 LEVEL = "other"
-TECHNIQUE = "static analysis: MIR slices + edge dominance over input_path_to_segments / lookup_route (decode-after-split chain, dot-segment guards on the decoded value, 400-before-lookup)"
+TECHNIQUE = "static analysis: MIR data-flow slices and path-sensitive guard facts over input_path_to_segments / lookup_route (decode-after-split chain, dot-segment guards on the decoded value, 400-before-lookup)"
 LEVEL_TEXT = ("Decides, on every path of the type-checked MIR of the current tree, the structural clauses of C03: the request path is split on '/' "
-              "on the raw text, empty segments are filtered, each segment is percent-decoded exactly once (single call site, argument = the split item), "
-              "UTF-8 failure propagates, the '.'/'..' rejections compare the *decoded* value and their accept edges dominate every Ok(segment), and in "
-              "lookup_route the segment error becomes HttpError::for_bad_request (evaluated status 400) on an edge that dominates every handler selection. "
+              "on the raw text, empty segments are filtered, each segment is percent-decoded exactly once (single call site, argument = an element of the split), "
+              "UTF-8 failure propagates, every segment handed on is the decoded value and is reached only on paths where the *decoded* value was found different from "
+              "'.' and '..', and in lookup_route the segment error becomes HttpError::for_bad_request (evaluated status 400) on an edge that excludes every handler selection. "
+              "The rules are written over data flow and path facts, so iterator chains, explicit loops, `?` or `match`, `a || b` or nested ifs, and extracted helper functions are all accepted. "
               "It does not decide percent-encoding's or from_utf8's own correctness.")
 LEVEL_NOTE = "Trusts rustc MIR construction, the fact extractor, percent_encoding::percent_decode_str/decode_utf8 and str::split semantics."
-EXPLANATION = ("Static rules over MIR facts extracted from /repo's current source: who-calls census of percent-decoding, backward slices (CHAIN) from the decode "
-               "argument to the split item and from the returned segment to decode_utf8, comparison sites against the constants \".\"/\"..\" with their "
-               "operand slices, edge dominance of the accept edges over Ok(..), and dominance of the `?` on the segment error over handler selection in lookup_route.")
-TRUSTED = ["rustc nightly MIR construction + const evaluation", "mirfacts extractor", "rules/engine.py dominators and slices",
+EXPLANATION = ("Static rules over MIR facts extracted from /repo's current source: who-calls census of percent-decoding, element-origin analysis (the decoded value is an element of "
+               "split(path,'/')), backward slices (CHAIN) from every segment sink to decode_utf8, comparison sites against the constants \".\"/\"..\" with their "
+               "operand slices, path-sensitive boolean facts at every segment sink, and the Ok/Err split of the segment result in lookup_route.")
+TRUSTED = ["rustc nightly MIR construction + const evaluation", "mirfacts extractor", "rules/engine.py dominators, slices, bool_states_at",
            "percent_encoding::percent_decode_str / PercentDecode::decode_utf8", "core::str::split"]
 
+DECODE = r"percent_encoding::percent_decode"
+DECODE_UTF8 = r"PercentDecode.*decode_utf8$"
+OWNED = [r"string::ToString::to_string$", r"Cow::<'_, B>::into_owned$", r"borrow::ToOwned::to_owned$", r"Result::<T, E>::map_err$", r"convert::From::from$"]
 
-def _seg_fns(ctx):
-    top = ctx.need_fn(ctx.ds, "C03.R1", r"^router::input_path_to_segments$")
+
+def _seg_fns(ctx, R):
+    top = ctx.need_fn(ctx.ds, R, r"^router::input_path_to_segments$")
     return top, [top] + ctx.ds.descendants(top)
 
 
+def _sinks(f):
+    """Places where a finished segment leaves the decoding code: Ok(x) written to the return place of the
+    per-segment closure, or Vec::push(v, x) in the loop form."""
+    out = []
+    reach = f.reachable(0)
+    for b, i, st in f.aggregates(r"^std::result::Result$", "Ok"):
+        if st["pl"]["l"] == 0 and b in reach and f.local_ty(operand_local(st["rv"]["ops"][0]) or 0) in ("std::string::String", "alloc::string::String"):
+            out.append((b, st["rv"]["ops"][0], "Ok"))
+    for b, t in f.live_calls(r"vec::Vec::<T, A>::push$|VecDeque::<T, A>::push_back$"):
+        out.append((b, t["args"][1], "push"))
+    return out
+
+
 def r1_decode_once(ctx):
-    R = ctx.rule("C03.R1", "percent-decoding has exactly one call site on the request path; its argument is the item of str::split(path,'/') after the "
-                 "empty-segment filter; the decoded value goes through decode_utf8 whose Err propagates; the returned segment is that decoded value", floor=5)
-    top, fns = _seg_fns(ctx)
-    sites = callers(ctx.ds, r"percent_encoding::percent_decode")
+    R = ctx.rule("C03.R1", "percent-decoding has exactly one call site on the request path; its argument is an element of str::split(path,'/') with empty elements "
+                 "filtered out and nothing in between; the decoded value goes through decode_utf8 whose Err propagates; every segment handed on is that decoded value", floor=7)
+    top, fns = _seg_fns(ctx, R)
+    sites = callers(ctx.ds, DECODE)
     inside = [(f, bb, t) for f, bb, t in sites if f in fns]
-    outside = [(f, bb, t) for f, bb, t in sites if f not in fns]
     ctx.check(R, "decode-sites-in-input_path_to_segments", len(inside) == 1,
               "percent_decode* call sites inside input_path_to_segments: %d (want exactly 1: decode once)" % len(inside), top)
-    for f, bb, t in outside:
-        # any other decode on the request path would be a second decoding
-        ctx.check(R, "decode-site-elsewhere:%s" % f.id, False, "percent-decoding outside input_path_to_segments (%s)" % t.get("callee"), (f, bb))
+    for f, bb, t in sites:
+        if f not in fns:
+            ctx.check(R, "decode-site-elsewhere:%s" % f.id, False, "percent-decoding outside input_path_to_segments (%s)" % t.get("callee"), (f, bb))
     if len(inside) != 1:
         return
     f, bb, t = inside[0]
-    # argument = closure parameter (the split item), nothing in between
-    sl = f.slice(t["args"][0])
-    bad = callee_allow(sl, PLUMBING)
-    ctx.check(R, "decode-arg-is-split-item", f.raw["kind"] == "Closure" and sl.params() == [2] and not bad,
-              "argument of percent_decode_str slices to params %s via callees %s (want: the closure's item parameter, no transformation)" % (sl.params(), [b[0] for b in bad]), (f, bb))
-    # the closure is passed to Iterator::map whose receiver is filter(split(path, '/'))
-    cl = f
-    mapped = None
-    for g in fns:
-        for cbb, ct in g.live_calls(r"iter::Iterator::(map|filter_map|flat_map|try_for_each|map_while)$"):
-            for h, node in closure_args_of_call(g, ct):
-                if h is cl or cl in ctx.ds.descendants(h):
-                    mapped = (g, cbb, ct)
-    if mapped is None:
-        ctx.lost(R, "Iterator::map call taking the decoding closure")
-        return
-    g, cbb, ct = mapped
-    rs = g.slice(ct["args"][0])
-    splits = rs.calls(r"str::<impl str>::split$|str::<impl str>::split_terminator$")
-    split_ok = False
-    for c, sbb, st in splits:
-        if const_int(st["args"][1]) == 47:
-            split_ok = True
-    ctx.check(R, "split-on-slash-before-decode", split_ok and not rs.has_call(r"percent_decode"),
-              "receiver of map(): split('/') on raw text found=%s, decode before split=%s" % (split_ok, rs.has_call(r"percent_decode")), (g, cbb))
-    # the split receiver is the path parameter itself
-    for c, sbb, st in splits:
-        ps = g.slice(st["args"][0])
-        badp = callee_allow(ps, PLUMBING)
-        ctx.check(R, "split-receiver-is-path-param", ps.params() == [1] and not badp,
-                  "split receiver slices to params %s via %s" % (ps.params(), [b[0] for b in badp]), (g, sbb))
-    # empty-segment filter between split and map
-    filt = rs.calls(r"iter::Iterator::filter$")
-    okf = False
-    for c, fbb, ft in filt:
-        for h, node in closure_args_of_call(g, ft):
-            # closure returns Not(is_empty(item))
-            hs = h.slice({"l": 0, "p": []})
-            if hs.has_call(r"str::<impl str>::is_empty$") and ("unop", "Not") in hs.atoms:
-                okf = True
-    ctx.check(R, "empty-segments-filtered", okf, "filter(!is_empty) between split and map: %s" % okf, (g, cbb))
-    # decode_utf8 on the decode result, Err propagated
-    du = [(dbb, dt) for dbb, dt in f.live_calls(r"PercentDecode::<'a>::decode_utf8$|PercentDecode.*decode_utf8$")]
-    ok = False
-    for dbb, dt in du:
-        s2 = f.slice(dt["args"][0])
-        if s2.has_call(r"percent_decode_str"):
-            ok = True
-    ctx.check(R, "decode_utf8-on-decoded", ok and len(du) == 1, "decode_utf8 call sites fed by percent_decode_str: %d" % len(du), f)
-    # Try::branch on something whose slice contains decode_utf8, break edge leads to return w/o Ok
-    prop = False
-    for tbb, tt in f.live_calls(r"ops::Try::branch$"):
-        s3 = f.slice(tt["args"][0])
-        if s3.has_call(r"decode_utf8"):
-            te = try_edges(f, operand_local(tt["args"][0]))
-            if te:
-                # the break edge must not reach an Ok aggregate
-                reach = f.reachable(te["brk"])
-                oks = [b for b, i, st in f.aggregates(r"^std::result::Result$", "Ok") if b in reach]
-                prop = not oks
-    ctx.check(R, "utf8-error-propagates", prop, "`?` on decode_utf8's result; its Break edge reaches no Ok(..): %s" % prop, f)
-    # every Ok(x) returned: x comes from decode_utf8
-    noks = 0
-    for b, i, st in f.aggregates(r"^std::result::Result$", "Ok"):
-        if st["pl"]["l"] != 0 or b not in f.reachable(0):
-            continue
-        noks += 1
-        s4 = f.slice(st["rv"]["ops"][0])
-        bad4 = callee_allow(s4, PLUMBING + [r"percent_decode_str$", r"decode_utf8$", r"Result::<T, E>::map_err$", r"string::ToString::to_string$",
-                                          r"Cow::<'_, B>::into_owned$", r"borrow::ToOwned::to_owned$"])
-        ctx.check(R, "returned-segment-is-decoded-value", s4.has_call(r"decode_utf8") and not bad4,
-                  "Ok(segment): slice contains decode_utf8=%s, other callees=%s" % (s4.has_call(r"decode_utf8"), [x[0] for x in bad4]), (f, b))
-    if noks == 0:
-        ctx.lost(R, "Ok(segment) aggregate in the decoding closure")
+    arg = t["args"][0]
+    sl = f.slice(arg)
+    bad = callee_allow(sl, PLUMBING + ITER_PLUMBING + [r"str::<impl str>::split$", r"iter::Iterator::filter$"])
+    ctx.check(R, "decode-arg-untransformed", not bad and not any(a[0] == "binop" for a in sl.atoms),
+              "between the split element and percent_decode_str: %s" % ([b[0] for b in bad] or "no transformation"), (f, bb))
+    srcs = element_sources(ctx.ds, f, arg)
+    ok_split = ok_path = ok_nodecode = False
+    filt = False
+    for g, it_op, how in srcs:
+        rs = g.slice(it_op)
+        for c, sbb, st in rs.calls(r"str::<impl str>::split$|str::<impl str>::split_terminator$"):
+            if const_int(st["args"][1]) == 47:
+                ok_split = True
+                ps = g.slice(st["args"][0])
+                if ps.params() == [1] and g is top and not callee_allow(ps, PLUMBING):
+                    ok_path = True
+        ok_nodecode = not rs.has_call(DECODE)
+        for c, fbb, ft in rs.calls(r"iter::Iterator::filter$"):
+            for h, node in closure_args_of_call(g, ft):
+                hs = h.slice({"l": 0, "p": []})
+                if hs.has_call(r"str::<impl str>::is_empty$") and ("unop", "Not") in hs.atoms:
+                    filt = True
+    ctx.check(R, "decoded-value-is-an-element-of-split(path,'/')", ok_split and ok_path and ok_nodecode,
+              "element source(s) %s: split on '/'=%s, of the path parameter itself=%s, no decoding before the split=%s" % ([h for _, _, h in srcs], ok_split, ok_path, ok_nodecode), (f, bb))
+    if not filt:
+        # loop form: the decode is reached only when is_empty(element) was false
+        atoms = []
+        for ebb, et in f.live_calls(r"str::<impl str>::is_empty$"):
+            es = f.slice(et["args"][0])
+            if set(b for _, b, _ in es.calls(r"iter::Iterator::next$")) & set(b for _, b, _ in sl.calls(r"iter::Iterator::next$")) or (es.params() and es.params() == sl.params()):
+                atoms.append(("call", ebb))
+        filt = bool(atoms) and f.guarded_by(bb, atoms_false=atoms)[0]
+    ctx.check(R, "empty-segments-filtered", filt, "empty elements are dropped before decoding (filter(!is_empty) or an is_empty guard on the same element): %s" % filt, (f, bb))
+    du = f.live_calls(DECODE_UTF8)
+    ok = len(du) == 1 and f.slice(du[0][1]["args"][0]).has_call(r"percent_decode_str")
+    ctx.check(R, "decode_utf8-on-decoded", ok, "decode_utf8 call sites fed by percent_decode_str: %d" % len(du), f)
+    sinks = _sinks(f)
+    if ok:
+        sp = result_split(f, du[0][1]["dest"]["l"])
+        if sp is None:
+            ctx.check(R, "utf8-error-propagates", False, "the Result of decode_utf8 is never split into Ok/Err (error ignored?)", (f, du[0][0]))
+        else:
+            err_reach = f.reachable(sp["err"])
+            leaked = [b for b, op, k in sinks if b in err_reach and b not in f.reachable(sp["ok"], avoid=[sp["err"]]) or (b in err_reach and not f.loop_blocks())]
+            # in a loop the error edge must leave the function (return) without reaching another sink in the same iteration
+            direct = [b for b, op, k in sinks if b in f.reachable(sp["err"], avoid=[du[0][0]])]
+            ctx.check(R, "utf8-error-propagates", not direct, "decode_utf8's Err case (%s) reaches no segment sink: %s" % ("/".join(sp["via"]), not direct), (f, sp["switch_bb"]))
+    if not sinks:
+        ctx.lost(R, "segment sink (Ok(segment) / push(segment)) in the decoding code")
+    for b, op, kind in sinks:
+        s4 = f.slice(op)
+        bad4 = callee_allow(s4, PLUMBING + ITER_PLUMBING + OWNED + [r"percent_decode_str$", r"decode_utf8$", r"str::<impl str>::split$", r"iter::Iterator::filter$"])
+        ctx.check(R, "segment-is-the-decoded-value:%s" % kind, s4.has_call(r"decode_utf8") and not bad4,
+                  "%s(segment): slice contains decode_utf8=%s, other callees=%s" % (kind, s4.has_call(r"decode_utf8"), [x[0] for x in bad4]), (f, b))
 
 
 def r2_dot_segments(ctx):
-    R = ctx.rule("C03.R2", "every Ok(segment) is dominated by the not-equal edges of comparisons of the *decoded* value with \".\" and \"..\"; the equal edges return Err", floor=2)
-    top, fns = _seg_fns(ctx)
+    R = ctx.rule("C03.R2", "every segment handed on is reached only on paths where the *decoded* value compared different from \".\" and from \"..\"", floor=2)
+    top, fns = _seg_fns(ctx, R)
     found = {".": [], "..": []}
     for f in fns:
         for bb, t in f.live_calls(r"cmp::PartialEq::(eq|ne)$"):
@@ -137,35 +133,34 @@ def r2_dot_segments(ctx):
         ctx.check(R, "dot-test-on-decoded:%r" % dot, bool(dec),
                   "%d comparison(s) with %r, %d of them on a value derived from the decode_utf8 result (a test on the raw text only lets the percent-encoded spelling %s through)"
                   % (len(found[dot]), dot, len(dec), "%2e" * len(dot)), (f0, bb0))
-    # accept edges dominate Ok
+    n = 0
     for f in fns:
-        for b, i, st in f.aggregates(r"^std::result::Result$", "Ok"):
-            if st["pl"]["l"] != 0 or b not in f.reachable(0):
-                continue
-            s4 = f.slice(st["rv"]["ops"][0])
+        for b, op, kind in _sinks(f):
+            s4 = f.slice(op)
             if not s4.has_call(r"decode_utf8|percent_decode"):
                 continue
+            n += 1
             for dot in (".", ".."):
                 guarded = False
+                why = "no comparison of the decoded value with %r in this function" % dot
                 for g, bb, t, vs in found[dot]:
                     if g is not f or not vs.has_call(r"decode_utf8"):
                         continue
-                    dest = t["dest"]["l"]
-                    # the switch on the comparison result
-                    for sbb, stt in f.switches():
-                        d = stt["discr"]
-                        if d.get("k") in ("copy", "move") and d["pl"]["l"] == dest:
-                            tb, fb = f.bool_edges(sbb)
-                            is_eq = t["callee"].endswith("::eq")
-                            accept = fb if is_eq else tb
-                            if accept is not None and f.edge_dominates(sbb, accept, b):
-                                guarded = True
-                ctx.check(R, "ok-dominated-by-not-%r" % dot, guarded,
-                          "Ok(decoded segment) %s dominated by the `decoded != %r` edge" % ("is" if guarded else "is NOT", dot), (f, b))
+                    atom = ("call", bb)
+                    is_eq = t["callee"].endswith("::eq")
+                    ok, cex = f.guarded_by_all(b, atoms_false=[atom] if is_eq else [], atoms_true=[] if is_eq else [atom])
+                    if ok:
+                        guarded = True
+                    else:
+                        why = "a path reaches the sink without `decoded != %r` having been established (facts on that path: %s)" % (dot, cex)
+                ctx.check(R, "sink-guarded-by-not-%r:%s" % (dot, kind), guarded,
+                          "%s(decoded segment) %s" % (kind, "is reached only when decoded != %r" % dot if guarded else "— " + why), (f, b))
+    if n == 0:
+        ctx.lost(R, "a sink of decoded segments")
 
 
 def r3_400_before_lookup(ctx):
-    R = ctx.rule("C03.R3", "in lookup_route the segment error is mapped to HttpError::for_bad_request (status 400) and the `?` on it dominates every handler selection", floor=3)
+    R = ctx.rule("C03.R3", "in lookup_route the segment error becomes HttpError::for_bad_request (status 400) and the error case excludes every handler selection; the walk consumes exactly the validated segments", floor=5)
     lr = ctx.need_fn(ctx.ds, R, r"^router::HttpRouter::<Context>::lookup_route$")
     cs = lr.live_calls(r"^router::input_path_to_segments$")
     allc = callers(ctx.ds, r"^router::input_path_to_segments$")
@@ -173,49 +168,53 @@ def r3_400_before_lookup(ctx):
     if len(cs) != 1:
         return
     bb, t = cs[0]
-    # path argument is the function's path parameter
     names = {n: [p["l"] for p in pls if not p["p"]] for n, pls in lr.names.items()}
     ps = lr.slice(t["args"][0])
     ctx.check(R, "arg-is-path-param", ps.params() == names.get("path", [3]) and not callee_allow(ps, PLUMBING),
               "argument slices to params %s (path param is %s)" % (ps.params(), names.get("path")), (lr, bb))
-    # map_err closure -> for_bad_request
-    me = None
-    for mbb, mt in lr.live_calls(r"Result::<T, E>::map_err$"):
-        if operand_local(mt["args"][0]) == t["dest"]["l"]:
-            me = (mbb, mt)
-    if me is None:
-        ctx.lost(R, "map_err on input_path_to_segments' result")
+    sp = result_split(lr, t["dest"]["l"])
+    if sp is None:
+        ctx.lost(R, "the Ok/Err split of input_path_to_segments' result in lookup_route")
         return
-    mbb, mt = me
-    cls = closure_args_of_call(lr, mt)
-    okc = False
-    for h, node in cls:
-        hs = h.slice({"l": 0, "p": []})
-        okc = hs.has_call(r"^error::HttpError::for_bad_request$") and not hs.has_call(r"for_internal_error|for_unavail|for_not_found")
+    ctors = http_error_ctors_on_error_path(lr, sp)
     st = status_const_of_ctor(ctx.ds, "for_bad_request")
-    ctx.check(R, "segment-error-is-400", okc and st == {400},
-              "map_err closure builds for_bad_request=%s; status constants in for_bad_request=%s" % (okc, sorted(st or [])), (lr, mbb))
-    te = try_edges(lr, mt["dest"]["l"])
-    if not te:
-        ctx.lost(R, "`?` on the mapped segment error")
-        return
+    ctx.check(R, "segment-error-is-400", ctors == {"error::HttpError::for_bad_request"} and st == {400},
+              "error constructors on the segment-error path: %s; status constants in for_bad_request=%s" % (sorted(ctors) or "none", sorted(st or [])), (lr, sp["switch_bb"]))
     sites = lr.live_calls(r"^router::find_handler_matching_version$") + lr.live_calls(r"iter::Iterator::any$")
+    if not lr.live_calls(r"^router::find_handler_matching_version$"):
+        ctx.lost(R, "handler selection (find_handler_matching_version) in lookup_route")
     for sbb, stt in sites:
-        ctx.check(R, "400-edge-dominates-selection:%s" % (stt["callee"].split("::")[-1]),
-                  lr.edge_dominates(te["switch_bb"], te["cont"], sbb),
-                  "handler selection is%s dominated by the Continue edge of the segment `?`" % ("" if lr.edge_dominates(te["switch_bb"], te["cont"], sbb) else " NOT"), (lr, sbb))
-    # break edge returns (reaches return without passing a handler selection)
-    reach = lr.reachable(te["brk"])
-    ctx.check(R, "error-edge-selects-nothing", not any(sbb in reach for sbb, _ in sites),
-              "Break edge of the segment `?` reaches no handler selection", (lr, te["switch_bb"]))
-    # the segments walked are the Continue payload (not a re-parse of the path)
-    walk = lr.live_calls(r"iter::IntoIterator::into_iter$")
+        dom = lr.edge_dominates(sp["switch_bb"], sp["ok"], sbb)
+        ctx.check(R, "400-edge-dominates-selection:%s" % (stt["callee"].split("::")[-1]), dom,
+                  "handler selection is%s dominated by the Ok case of the segment result" % ("" if dom else " NOT"), (lr, sbb))
+    reach = lr.reachable(sp["err"]) - lr.reachable(sp["ok"]) if sp["ok"] in lr.reachable(sp["err"]) else lr.reachable(sp["err"])
+    ctx.check(R, "error-edge-selects-nothing", not any(sbb in lr.reachable(sp["err"], avoid=[sp["ok"]]) for sbb, _ in sites),
+              "the Err case of the segment result reaches no handler selection", (lr, sp["switch_bb"]))
+    # the segments walked are the Ok payload (not a re-parse of the path)
     okw = False
-    for wbb, wt in walk:
+    consumers = lr.live_calls(r"iter::IntoIterator::into_iter$|slice::<impl \[T\]>::iter$|vec::Vec::<T, A>::(into_iter|iter|drain)$|vec::IntoIter")
+    for wbb, wt in consumers:
         ws = lr.slice(wt["args"][0])
-        if ws.touches_local(te["dest"]) and not callee_allow(ws, PLUMBING + [r"input_path_to_segments$", r"map_err$"]):
+        if ws.has_call(r"^router::input_path_to_segments$") and not callee_allow(ws, PLUMBING + [r"input_path_to_segments$", r"Result::<T, E>::map_err$"]):
             okw = True
-    ctx.check(R, "walk-consumes-validated-segments", okw, "the segment iterator walked by lookup_route is built from the `?` payload unmodified: %s" % okw, lr)
+    ctx.check(R, "walk-consumes-validated-segments", okw, "the segment iterator walked by lookup_route is built from input_path_to_segments' Ok payload unmodified: %s" % okw, lr)
 
 
 RULES = [("C03.R1", r1_decode_once), ("C03.R2", r2_dot_segments), ("C03.R3", r3_400_before_lookup)]
+
+_RT = "dropshot/src/router.rs"
+SELFTEST = [
+    {"name": "prefix-f1", "kind": "mutant", "revert": "04396fe", "expect": ["C03.R2"], "why": "dot test on the raw segment only (pre-fix code)"},
+    {"name": "decode-before-split", "kind": "mutant", "edits": [(_RT, "    path.0\n        .split('/')", "    percent_decode_str(&path.0).decode_utf8_lossy()\n        .split('/')")],
+     "expect": ["C03.R1"], "why": "an encoded slash creates a segment boundary; segments are decoded twice"},
+    {"name": "segment-error-404", "kind": "mutant", "edits": [(_RT, "            HttpError::for_bad_request(\n                None,\n                String::from(\"invalid path encoding\"),\n            )",
+                                                              "            HttpError::for_not_found(\n                None,\n                String::from(\"invalid path encoding\"),\n            )")],
+     "expect": ["C03.R3"], "why": "a bad segment is answered 404 instead of 400"},
+    {"name": "empty-filter-dropped", "kind": "mutant", "edits": [(_RT, "        .filter(|segment| !segment.is_empty())\n", "")], "expect": ["C03.R1"], "why": "repeated slashes produce empty segments"},
+    {"name": "dotdot-only", "kind": "mutant", "edits": [(_RT, "                \".\" | \"..\" => Err(", "                \"..\" => Err(")], "expect": ["C03.R2"], "why": "a '.' segment reaches handlers"},
+    {"name": "lossy-utf8", "kind": "mutant", "edits": [(_RT, "            let decoded = percent_decode_str(segment)\n                .decode_utf8()\n                .map_err(|e| e.to_string())?;", "            let decoded = percent_decode_str(segment).decode_utf8_lossy();")],
+     "expect": ["C03.R1"], "why": "invalid UTF-8 is replaced instead of refused"},
+    {"name": "or-flag", "kind": "benign", "edits": [(_RT, "            match decoded.as_ref() {\n                \".\" | \"..\" => Err(\"dot-segments are not permitted\".to_string()),\n                _ => Ok(decoded.to_string()),\n            }",
+                                                   "            let is_dot = decoded == \".\" || decoded == \"..\";\n            if is_dot {\n                Err(\"dot-segments are not permitted\".to_string())\n            } else {\n                Ok(decoded.into_owned())\n            }")],
+     "why": "same test through a named boolean"},
+]
